@@ -74,6 +74,9 @@ def bootstrap(spec):
         sys.meta_path.insert(0, _Finder)
     import pendulum  # noqa: F401
 
+    if spec.get("week_start") is not None and not spec.get("suite"):
+        pendulum.week_starts_at(pendulum.WeekDay(spec["week_start"]))
+        pendulum.week_ends_at(pendulum.WeekDay((spec["week_start"] - 1) % 7))
     pf = os.path.realpath(pendulum.__file__)
     if not pf.startswith(os.path.realpath(src)):
         raise RuntimeError(f"pendulum imported from {pf}, expected under {src}")
